@@ -9,6 +9,8 @@ REQUIRED = [
     "DaeVerif.C05.Props.read_conserves",
     "DaeVerif.C05.Props.interleaving_conserves",
     "DaeVerif.C05.Props.detection_hands_over_every_byte",
+    "DaeVerif.C05.Props.detection_total",
+    "DaeVerif.C05.Props.oversize_length_is_not_dns",
     "DaeVerif.C05.Props.relay_starts_within_window",
     "DaeVerif.C05.Props.no_deadline_left_armed",
     "DaeVerif.C05.Props.poison_only_after_client_reset",
@@ -46,7 +48,7 @@ def run(ctx):
         "the destination accepts every write (a healthy peer); write errors are exercised only through peer close/reset",
     ]
     # 1. harness binary first: the deadline-path table is regenerated from the repository under check
-    binp = ctx.go_test_build("control", ["control/c05_test.go", "control/c05_paths_test.go", "control/c05_tcp_test.go", "control/c05_wrap_test.go"], "c05")
+    binp = ctx.go_test_build("control", ["control/c05_test.go", "control/c05_paths_test.go", "control/c05_tcp_test.go", "control/c05_wrap_test.go", "control/c05_e2e_test.go"], "c05")
     if not binp:
         return 2
     rc, out = ctx.run_harness(binp, "TestVerifC05Paths")
@@ -87,7 +89,7 @@ def run(ctx):
     distinct = set()
     samples = []
     dist = {}
-    for test, stream in (("TestVerifC05Conn", "c05conn"), ("TestVerifC05Concurrent", "c05par"), ("TestVerifC05Tcp", "c05tcp"),
+    for test, stream in (("TestVerifC05Conn", "c05conn"), ("TestVerifC05Concurrent", "c05par"), ("TestVerifC05E2E", "c05e2e"), ("TestVerifC05Tcp", "c05tcp"),
                          ("TestVerifC05Wrap", "c05wrap")):
         rc, out = ctx.run_harness(binp, test)
         ops, impl, model = (os.path.join(ctx.out, stream + "." + e) for e in ("ops", "impl", "model"))
